@@ -88,6 +88,9 @@ Definition shape (kind : bytes) (q : dparams) : option dbg :=
       fld "verification_uri_complete" (some (sec "VerificationUriComplete" (s3 q)));
       fld "expires_in" (raw "1800"); fld "interval" (raw "5");
       fld "extra_fields" (raw "EmptyExtraDeviceAuthorizationFields")])
+  else if kind_is kind "dev_resp_nouri" then
+      (* a response lacking verification_uri is rejected: there is no value to format *)
+      Some (DRaw (s2b "rejected"))
   else if kind_is kind "revocable" then Some (DTuple (s2b "RefreshToken") [sec "RefreshToken" (s1 q)])
   else if kind_is kind "nest" then Some (DTuple [] [
       some (sec "ClientSecret" (s0 q));
